@@ -3,6 +3,7 @@
    Print Assumptions.  GENERATED skeleton (tools/mkprops.py), statements are the ones Coq prints for the lemmas. *)
 From Coq Require Import Arith List Bool String.
 From VQ Require Import Model.Shapes Model.ShapesDoc Proofs.ShapesProofs Glue.ShapesGlue Glue.Pin_p_shapes.
+From VQ Require Import Glue.Pin_fp_C13.
 Import ListNotations.
 
 Theorem C13_output_shape_is_input_shape :
@@ -86,6 +87,11 @@ Theorem C13_tie_shape_sites :
   p_shapes.p_shapes = pinned_p_shapes.
 Proof. exact (@pin_p_shapes). Qed.
 Print Assumptions C13_tie_shape_sites.
+
+Theorem C13_tie_source_footprint :
+  fp_C13.fp_C13 = pinned_fp_C13.
+Proof. exact (@Pin_fp_C13.pin_fp_C13). Qed.
+Print Assumptions C13_tie_source_footprint.
 
 (* index range: indices are argmax / argmin positions of non-empty score lists (C01_argmax_in_range), mixed-radix digits
    sums below prod(levels) (C04), and -1 exactly at padded (C09) or dropped (C12) entries *)
